@@ -284,6 +284,40 @@ func c07(c *Ctx) {
 							just = "set difference against GetAllMessagesIDsAsMap"
 						}
 						if call, ok := s.(*ssa.Call); ok {
+							// the difference computed by a helper of the package with a loop: kept elements are decided by a
+							// comma-ok lookup in a map parameter, and the map handed in is the database's id set
+							if sc := call.Call.StaticCallee(); sc != nil && engine.BaseName(sc) != "Filter" && len(sc.Blocks) > 0 && sc.Parent() == nil && P.IsOwn(sc) {
+								for _, hfn := range engine.WithClosures(sc) {
+									for _, hb := range hfn.Blocks {
+										for _, in := range hb.Instrs {
+											lk, isLk := in.(*ssa.Lookup)
+											if !isLk || !lk.CommaOk {
+												continue
+											}
+											var q *ssa.Parameter
+											engine.Backward(lk.X, engine.FlowOpts{Loads: true}, func(x ssa.Value) bool {
+												if pp, ok := x.(*ssa.Parameter); ok && pp.Parent() == sc {
+													q = pp
+													return false
+												}
+												return true
+											})
+											if q == nil {
+												continue
+											}
+											ix := engine.ParamIndex(sc, q)
+											if ix < 0 || ix >= len(call.Call.Args) {
+												continue
+											}
+											for _, o := range P.Origins(call.Call.Args[ix], engine.OriginOpts{MaxDepth: 24}) {
+												if _, mn, isInv := invokeName(o.V); isInv && mn == "GetAllMessagesIDsAsMap" {
+													just = "set difference against GetAllMessagesIDsAsMap"
+												}
+											}
+										}
+									}
+								}
+							}
 							if sc := call.Call.StaticCallee(); sc != nil && engine.BaseName(sc) == "Filter" {
 								if mc, ok := call.Call.Args[1].(*ssa.MakeClosure); ok {
 									for _, bnd := range mc.Bindings {
